@@ -26,7 +26,7 @@ RULE = ("random programs of 50-500 API calls (by_path, ckd, generate_children, d
         "orders, hardened/normal index twins (i and i+2^31) and reuse of returned children as subjects; the same programs run "
         "from 2-8 threads on the same objects under seeded LINE-level yield injection and a 1us switch interval; distinct = "
         "distinct (monitor, case) digests plus distinct interleaving signatures"
-        " EXTENSIONS: + related consecutive by_path requests, capacity scenarios (2^14+600 real, 2^19+600 private and 2^18+600 public in fast mode; thorough up to 2^21+600) with two held children and a running generator, deterministic single-preemption sweep")
+        " EXTENSIONS: + related consecutive by_path requests, capacity scenarios (2^14+600 real, 2^19+600 private and 2^18+600 public in fast mode; thorough up to 2^21+600) with two held children and a running generator, deterministic single-preemption sweep, listings of the same children through the caller's own callables sharing a qualified name (callable_pairs)")
 LEVEL_TEXT = ("Every event of every history is compared with a stateless recomputation from the root (reference model), so no "
               "result may depend on earlier calls, their order or multiplicity; concatenation, generator stepping, root-key "
               "immutability, per-node identity (icontract snapshot on ckd) and children-count conservation are checked; "
@@ -118,7 +118,23 @@ class World:
         return node
 
 
+def _custom_addr_fncs():
+    """Address functions of the CALLER's own making (address_generator / group take any callable): two different ones that share
+    their name and qualified name, as two inline lambdas in one function do."""
+    fa = lambda node: "A|" + node.public_key.sec(compressed=True).hex()       # noqa: E731
+    fb = lambda node: "B|" + node.public_key.sec(compressed=False).hex()      # noqa: E731
+    return {"custom-A": fa, "custom-B": fb}
+
+
+CUSTOM = _custom_addr_fncs()
+
+
 def exp_address(world, wid, path, kind):
+    if kind == "custom-A":
+        return "A|" + world.ref(wid, path).sec().hex()
+    if kind == "custom-B":
+        from ..ref import secp as _secp
+        return "B|" + _secp.ser(_secp.parse(world.ref(wid, path).sec()), False).hex()
     return raddr.KINDS[kind](world.ref(wid, path).sec(), world.net[wid])
 
 
@@ -331,9 +347,12 @@ class Runner:
             h = self.pick()
             if len(h.path) >= 9:
                 return
-            kind = self.rnd.choice(["default"] + ADDR_KINDS)
+            kind = self.rnd.choice(["default"] + ADDR_KINDS + ["custom-A", "custom-B", "custom-B"])
             wal = w.wallets[h.wid]
-            g = wal.address_generator(h.node) if kind == "default" else wal.address_generator(h.node, getattr(wal, kind + "_address"))
+            if kind.startswith("custom"):
+                g = wal.address_generator(h.node, CUSTOM[kind])
+            else:
+                g = wal.address_generator(h.node) if kind == "default" else wal.address_generator(h.node, getattr(wal, kind + "_address"))
             self.gens.append([g, h, "p2wpkh" if kind == "default" else kind, None])
             return
         ent = self.rnd.choice(self.gens)
@@ -877,8 +896,62 @@ def judge_capacity(ctx, case):
                      cls="capacity|%s|%s|n%d|%s" % (kind, "test" if tn else "main", N, "fast" if case.get("fast") else "real"), mech="C13.capacity." + (bad[0][0].split(".")[0].split("_after")[0] if bad else ""))
 
 
+def judge_callable_pairs(ctx, case):
+    """One wallet, one parent, several listings of the SAME children through different address functions - the wallet's own
+    methods and callables of the caller's making that share a name (two lambdas): what a listing says depends on the function
+    it was given, not on the listings served before."""
+    from btc_hd_wallet.paper_wallet import PaperWallet
+    tn = case["testnet"]
+    m = rb32.master(case["seed"])
+    W = PaperWallet.from_bip39_seed_bytes(bip39_seed=case["seed"], testnet=tn)
+    ppath = [84 + H, (1 if tn else 0) + H, H, 0]
+    if case["watch_only"]:
+        acct = rb32.derive(m, ppath[:3])
+        W = PaperWallet.from_extended_key(extended_key=acct.xpub(rb32.version_for("pub", tn, 84)))
+        parent, mark, rel = W.by_path("M/0"), "M", [0]
+    else:
+        parent, mark, rel = W.by_path(rpath.fmt(ppath, "m")), "m", list(ppath)
+    refparent = rb32.derive(m, ppath)
+    from ..ref import secp as _secp
+
+    def want(kind, i):
+        ref = rb32.ckd_pub(refparent.neuter(), i)
+        if kind == "custom-A":
+            return "A|" + ref.sec().hex()
+        if kind == "custom-B":
+            return "B|" + _secp.ser(_secp.parse(ref.sec()), False).hex()
+        return raddr.KINDS[kind](ref.sec(), tn)
+    bad = []
+    try:
+        for kind, count, how in case["listings"]:
+            fn = CUSTOM[kind] if kind.startswith("custom") else getattr(W, kind + "_address")
+            if how == "generator":
+                g = W.address_generator(parent, fn)
+                got = [next(g) for _ in range(count)]
+                got = [(p_, a_) for p_, a_ in got]
+            else:
+                nodes = [parent.ckd(index=i) for i in range(count)]
+                got = [(r[0], r[1]) for r in W.group(nodes=nodes, addr_fnc=fn)]
+            for i, (p_, a_) in enumerate(got):
+                exp = (rpath.fmt(rel + [i], mark), want(kind, i))
+                if (p_, a_) != exp:
+                    bad.append(("%s.%s@%d" % (how, kind, i), exp, (p_, a_)))
+                    break
+            if bad:
+                break
+    except Exception as ex:  # noqa
+        bad.append(("raised", None, ex))
+    return ctx.judge("callable_pairs", not bad, case, None, bad[:2], cls="callables|%s|%s" % ("watch" if case["watch_only"] else "full", "test" if tn else "main"),
+                     mech="C13.callable_pairs." + (bad[0][0].split("@")[0].split(".")[0] if bad else ""))
+
+
 def run(ctx):
     holder = {}
+    for j in range(ctx.scale(24, 2000)):
+        kinds = ["custom-A", "custom-B"] + ctx.rnd.sample(ADDR_KINDS, 2)
+        ctx.rnd.shuffle(kinds)
+        judge_callable_pairs(ctx, {"seed": gen.rbytes(ctx.rnd, 32), "testnet": bool(j & 1), "watch_only": bool(j & 2),
+                                   "listings": [(k_, ctx.rnd.randrange(1, 5), ctx.rnd.choice(["generator", "generator", "group"])) for k_ in kinds]})
     inst = install_probes(ctx, holder)
     try:
         sequential(ctx, holder, ctx.scale(64, 6000), "w")
@@ -902,6 +975,9 @@ def replay(ctx, monitor, case):
     schedule is re-sampled with the same yield-injection seed)."""
     if monitor == "capacity":
         return judge_capacity(ctx, case)
+    if monitor == "callable_pairs":
+        case["listings"] = [tuple(x) for x in case["listings"]]
+        return judge_callable_pairs(ctx, case)
     holder = {}
     inst = install_probes(ctx, holder)
     try:
